@@ -2,16 +2,32 @@
 
 package conngater_test
 
-// C10, composition with real swarms.  A gated swarm "pa" (real BasicConnectionGater behind a recording
-// pass-through, over the crash-able datastore) listens on 127.0.0.1 and ::1 (TCP + QUIC); three remotes
+// C10, composition with real swarms, consultation by consultation.
+//
+// A gated swarm "pa" (real BasicConnectionGater behind a recording wrapper, over the crash-able datastore)
+// listens on 127.0.0.1 and ::1 (TCP, QUIC, WebSocket, WebTransport, WebRTC-direct); three remotes
 // p2 @ 127.0.0.2, p3 @ 127.0.0.3 and p6 @ ::1 listen on their own loopback address and dial FROM it
-// (TCP: a dialer bound to the address, QUIC: quicreuse source-IP selector -> the listening socket).
-// Walks of the Exclusive instance of spec/C10_Gater.tla are executed: the rule calls (with crashes and
-// reopening) on the real gater, every attempt of the model as a real DialPeer in the given direction over
-// the given transport.  L1 = on the gated host no Connected notification / ConnsToPeer entry for a remote
-// matched by a rule the ledger says is blocked, and for outbound attempts no transport Dial call (recording
-// transport) and no inbound attempt at the remote (its recording gater).  A network time-out is reported as
-// a machinery failure, never as a verdict.
+// (TCP: a dialer bound to the address, QUIC/WebTransport: quicreuse source-IP selector -> the listening
+// socket; WebSocket and WebRTC cannot be bound, they are used from ::1 only).
+//
+// Walks of spec/C10_Gater.tla are executed action by action.  The recording wrapper of the gated host's
+// gater STOPS every Intercept* call before it is answered, the recording wrappers of its transports stop
+// every Dial, and the harness releases them one at a time as the model's att_step actions say: so the model's
+// interleavings of rule calls with the stages of an attempt (a block that lands between InterceptPeerDial
+// and the transport dial, between the start of a hole punch and the arrival of the remote's connection ...)
+// are realised on the real swarm, and the log proves which Intercept* function was called with which
+// direction, in which order.  An attempt starts from what the model says the swarm already holds for the
+// peer (nothing / a relayed connection: WebSocket transport reporting Proxy()==true and Limited / a direct
+// one; set up with the wrapper in by-pass, i.e. "admitted before the block") and is made the way the model
+// says (DialPeer plain / ForceDirectDial / SimultaneousConnect client or server / both; NewStream with
+// NoDial / AllowLimitedConn).  A QUIC dial as simultaneous-connect server is a real hole punch: the remote
+// dials the gated host's listener from the punched address.
+//
+// L1 (from the harness's own ledger of returned calls): once a matching Block* call has returned and while
+// it is not undone, no NEW connection appears on the gated host (Connected notification / ConnsToPeer /
+// returned by DialPeer) and no transport Dial is called; the same for a rule in force at every consultation
+// of the connection (for a connection arriving at a listener: from its arrival on).  A network time-out is a
+// machinery failure, never a verdict.
 
 import (
 	"context"
@@ -43,7 +59,9 @@ import (
 	libp2pquic "github.com/libp2p/go-libp2p/p2p/transport/quic"
 	"github.com/libp2p/go-libp2p/p2p/transport/quicreuse"
 	"github.com/libp2p/go-libp2p/p2p/transport/tcp"
+	libp2pwebrtc "github.com/libp2p/go-libp2p/p2p/transport/webrtc"
 	"github.com/libp2p/go-libp2p/p2p/transport/websocket"
+	libp2pwebtransport "github.com/libp2p/go-libp2p/p2p/transport/webtransport"
 	ma "github.com/multiformats/go-multiaddr"
 	manet "github.com/multiformats/go-multiaddr/net"
 	"github.com/quic-go/quic-go"
@@ -52,7 +70,43 @@ import (
 const vfC10NetWait = 20 * time.Second
 
 // ---------------------------------------------------------------------------------------------
-// recorders
+// stop points and recorders
+
+type vfC10Event struct {
+	stage   string // peerdial addrdial accept secured_in secured_out upgraded tdial
+	peer    string
+	addr    string
+	release chan struct{}
+	done    chan bool // the answer (tdial: true)
+}
+
+// vfC10StepCtl: while armed, consultations and dials of the gated host stop and wait for the harness
+type vfC10StepCtl struct {
+	events chan *vfC10Event
+}
+
+func (c *vfC10StepCtl) stop(stage string, p peer.ID, a ma.Multiaddr) *vfC10Event {
+	if c == nil {
+		return nil
+	}
+	ev := &vfC10Event{stage: stage, release: make(chan struct{}), done: make(chan bool, 1)}
+	if p != "" {
+		ev.peer = vfC10PeerName[p]
+	}
+	if a != nil {
+		ev.addr = a.String()
+	}
+	select {
+	case c.events <- ev:
+	default:
+		return nil // nobody can be listening to that many stops: do not hold the swarm up
+	}
+	select {
+	case <-ev.release:
+	case <-time.After(vfC10NetWait):
+	}
+	return ev
+}
 
 type vfC10GateRec struct {
 	Fn    string `json:"fn"`
@@ -62,12 +116,24 @@ type vfC10GateRec struct {
 }
 
 type vfC10RecGater struct {
-	mu   sync.Mutex
-	log  []vfC10GateRec
-	real func() connmgr.ConnectionGater // nil result = no gater (allow)
+	mu     sync.Mutex
+	log    []vfC10GateRec
+	real   func() connmgr.ConnectionGater // nil result = no gater (allow)
+	ctl    atomic.Pointer[vfC10StepCtl]
+	bypass atomic.Bool // scaffolding: the connection being set up was "admitted before the block"
 }
 
-func (g *vfC10RecGater) rec(fn string, p peer.ID, a ma.Multiaddr, allow bool) bool {
+func (g *vfC10RecGater) consult(fn string, p peer.ID, a ma.Multiaddr, ask func(connmgr.ConnectionGater) bool) bool {
+	if g.bypass.Load() {
+		return true
+	}
+	ev := g.ctl.Load().stop(fn, p, a)
+	allow := true
+	if g.real != nil {
+		if in := g.real(); in != nil {
+			allow = ask(in)
+		}
+	}
 	r := vfC10GateRec{Fn: fn, Allow: allow}
 	if p != "" {
 		r.Peer = vfC10PeerName[p]
@@ -81,41 +147,35 @@ func (g *vfC10RecGater) rec(fn string, p peer.ID, a ma.Multiaddr, allow bool) bo
 	g.mu.Lock()
 	g.log = append(g.log, r)
 	g.mu.Unlock()
+	if ev != nil {
+		ev.done <- allow
+	}
 	return allow
 }
-func (g *vfC10RecGater) inner() connmgr.ConnectionGater {
-	if g.real == nil {
-		return nil
-	}
-	return g.real()
-}
 func (g *vfC10RecGater) InterceptPeerDial(p peer.ID) bool {
-	in := g.inner()
-	return g.rec("peerdial", p, nil, in == nil || in.InterceptPeerDial(p))
+	return g.consult("peerdial", p, nil, func(in connmgr.ConnectionGater) bool { return in.InterceptPeerDial(p) })
 }
 func (g *vfC10RecGater) InterceptAddrDial(p peer.ID, a ma.Multiaddr) bool {
-	in := g.inner()
-	return g.rec("addrdial", p, a, in == nil || in.InterceptAddrDial(p, a))
+	return g.consult("addrdial", p, a, func(in connmgr.ConnectionGater) bool { return in.InterceptAddrDial(p, a) })
 }
 func (g *vfC10RecGater) InterceptAccept(c network.ConnMultiaddrs) bool {
-	in := g.inner()
-	return g.rec("accept", "", c.RemoteMultiaddr(), in == nil || in.InterceptAccept(c))
+	return g.consult("accept", "", c.RemoteMultiaddr(), func(in connmgr.ConnectionGater) bool { return in.InterceptAccept(c) })
 }
 func (g *vfC10RecGater) InterceptSecured(d network.Direction, p peer.ID, c network.ConnMultiaddrs) bool {
-	in := g.inner()
-	fn := "secured-in"
+	fn := "secured_in"
 	if d == network.DirOutbound {
-		fn = "secured-out"
+		fn = "secured_out"
 	}
-	return g.rec(fn, p, c.RemoteMultiaddr(), in == nil || in.InterceptSecured(d, p, c))
+	return g.consult(fn, p, c.RemoteMultiaddr(), func(in connmgr.ConnectionGater) bool { return in.InterceptSecured(d, p, c) })
 }
 func (g *vfC10RecGater) InterceptUpgraded(c network.Conn) (bool, control.DisconnectReason) {
-	in := g.inner()
-	if in == nil {
-		return g.rec("upgraded", c.RemotePeer(), c.RemoteMultiaddr(), true), 0
-	}
-	ok, why := in.InterceptUpgraded(c)
-	return g.rec("upgraded", c.RemotePeer(), c.RemoteMultiaddr(), ok), why
+	var why control.DisconnectReason
+	ok := g.consult("upgraded", c.RemotePeer(), c.RemoteMultiaddr(), func(in connmgr.ConnectionGater) bool {
+		a, w := in.InterceptUpgraded(c)
+		why = w
+		return a
+	})
+	return ok, why
 }
 func (g *vfC10RecGater) take() []vfC10GateRec {
 	g.mu.Lock()
@@ -130,26 +190,48 @@ func (g *vfC10RecGater) peek() []vfC10GateRec {
 	return append([]vfC10GateRec(nil), g.log...)
 }
 
+// vfC10RecTransport records (and, when armed, stops) every Dial; with proxy set it looks like a relay transport:
+// Proxy()==true and its connections report that transport and a limited connection.
 type vfC10RecTransport struct {
 	transport.Transport
-	dials atomic.Int64
-	mu    sync.Mutex
-	last  string
+	dials    atomic.Int64
+	inflight atomic.Int64 // Dial calls of the wrapped transport that have not returned
+	gate     *vfC10RecGater
+	proxy    atomic.Bool
 }
 
+func (t *vfC10RecTransport) Proxy() bool { return t.proxy.Load() }
+
 func (t *vfC10RecTransport) Dial(ctx context.Context, raddr ma.Multiaddr, p peer.ID) (transport.CapableConn, error) {
-	t.dials.Add(1)
-	t.mu.Lock()
-	t.last = raddr.String()
-	t.mu.Unlock()
-	return t.Transport.Dial(ctx, raddr, p)
+	if !t.gate.bypass.Load() {
+		t.dials.Add(1)
+		if ev := t.gate.ctl.Load().stop("tdial", p, raddr); ev != nil {
+			ev.done <- true
+		}
+	}
+	t.inflight.Add(1)
+	c, err := t.Transport.Dial(ctx, raddr, p)
+	t.inflight.Add(-1)
+	if err != nil || !t.proxy.Load() {
+		return c, err
+	}
+	return vfC10RelayedConn{CapableConn: c, t: t}, nil
+}
+
+type vfC10RelayedConn struct {
+	transport.CapableConn
+	t transport.Transport
+}
+
+func (c vfC10RelayedConn) Transport() transport.Transport { return c.t }
+func (c vfC10RelayedConn) Stat() network.ConnStats {
+	return network.ConnStats{Stats: network.Stats{Limited: true}}
 }
 
 type vfC10NotifEv struct {
 	connected bool
 	peer      peer.ID
 	raddr     string
-	inbound   bool
 }
 
 type vfC10Notif struct {
@@ -159,20 +241,19 @@ type vfC10Notif struct {
 
 func (n *vfC10Notif) add(connected bool, c network.Conn) {
 	n.mu.Lock()
-	n.evs = append(n.evs, vfC10NotifEv{connected, c.RemotePeer(), c.RemoteMultiaddr().String(), c.Stat().Direction == network.DirInbound})
+	n.evs = append(n.evs, vfC10NotifEv{connected, c.RemotePeer(), c.RemoteMultiaddr().String()})
 	n.mu.Unlock()
 }
-func (n *vfC10Notif) count(connected bool, p peer.ID, from int) (int, string) {
+func (n *vfC10Notif) count(connected bool, p peer.ID, from int) int {
 	n.mu.Lock()
 	defer n.mu.Unlock()
-	c, addr := 0, ""
+	c := 0
 	for _, e := range n.evs[from:] {
 		if e.connected == connected && e.peer == p {
 			c++
-			addr = e.raddr
 		}
 	}
-	return c, addr
+	return c
 }
 func (n *vfC10Notif) mark() int {
 	n.mu.Lock()
@@ -230,21 +311,37 @@ type vfC10Host struct {
 	ip4, ip6 net.IP
 	sw       *swarm.Swarm
 	gate     *vfC10RecGater
-	tcpT     *vfC10RecTransport
-	quicT    *vfC10RecTransport
-	wsT      *vfC10RecTransport
+	tpts     map[string]*vfC10RecTransport // tcp quic ws wt rtc
 	notif    *vfC10Notif
-	listen   map[string]ma.Multiaddr // "4tcp", "4quic", "4ws", "6tcp", "6quic", "6ws"
+	listen   map[string]ma.Multiaddr // family + transport: "4tcp", "6rtc" ...
 	closers  []io.Closer
 }
 
 func (h *vfC10Host) dials() int64 {
-	return h.tcpT.dials.Load() + h.quicT.dials.Load() + h.wsT.dials.Load()
+	var n int64
+	for _, t := range h.tpts {
+		n += t.dials.Load()
+	}
+	return n
 }
 
-func vfC10NewHost(name, ip4, ip6 string, real func() connmgr.ConnectionGater, resolver network.MultiaddrDNSResolver) (*vfC10Host, error) {
+func vfC10TptOf(a ma.Multiaddr) string {
+	t := "tcp"
+	for _, pc := range []struct {
+		code int
+		name string
+	}{{ma.P_QUIC_V1, "quic"}, {ma.P_WS, "ws"}, {ma.P_WEBTRANSPORT, "wt"}, {ma.P_WEBRTC_DIRECT, "rtc"}} {
+		if _, err := a.ValueForProtocol(pc.code); err == nil {
+			t = pc.name
+		}
+	}
+	return t
+}
+
+func vfC10NewHost(name, ip4, ip6 string, real func() connmgr.ConnectionGater, resolver network.MultiaddrDNSResolver, extra bool) (*vfC10Host, error) {
 	idn := vfC10Ids()[name]
-	h := &vfC10Host{name: name, id: idn.id, gate: &vfC10RecGater{real: real}, notif: &vfC10Notif{}, listen: map[string]ma.Multiaddr{}}
+	h := &vfC10Host{name: name, id: idn.id, gate: &vfC10RecGater{real: real}, notif: &vfC10Notif{}, listen: map[string]ma.Multiaddr{},
+		tpts: map[string]*vfC10RecTransport{}}
 	if ip4 != "" {
 		h.ip4 = net.ParseIP(ip4)
 	}
@@ -279,6 +376,14 @@ func vfC10NewHost(name, ip4, ip6 string, real func() connmgr.ConnectionGater, re
 	if err != nil {
 		return nil, err
 	}
+	add := func(name string, t transport.Transport) error {
+		rt := &vfC10RecTransport{Transport: t, gate: h.gate}
+		h.tpts[name] = rt
+		if c, ok := t.(io.Closer); ok {
+			h.closers = append(h.closers, c)
+		}
+		return h.sw.AddTransport(rt)
+	}
 	tcpT, err := tcp.NewTCPTransport(up, nil, nil, tcp.DisableReuseport(),
 		tcp.WithDialerForAddr(func(raddr ma.Multiaddr) (tcp.ContextDialer, error) {
 			local := h.ip4
@@ -294,7 +399,9 @@ func vfC10NewHost(name, ip4, ip6 string, real func() connmgr.ConnectionGater, re
 	if err != nil {
 		return nil, err
 	}
-	h.tcpT = &vfC10RecTransport{Transport: tcpT}
+	if err := add("tcp", tcpT); err != nil {
+		return nil, err
+	}
 	sel := vfC10SrcSel{h.ip4, h.ip6}
 	reuse, err := quicreuse.NewConnManager(quic.StatelessResetKey{}, quic.TokenGeneratorKey{},
 		quicreuse.OverrideSourceIPSelector(func() (quicreuse.SourceIPSelector, error) { return sel, nil }))
@@ -305,15 +412,7 @@ func vfC10NewHost(name, ip4, ip6 string, real func() connmgr.ConnectionGater, re
 	if err != nil {
 		return nil, err
 	}
-	h.quicT = &vfC10RecTransport{Transport: quicT}
-	if c, ok := quicT.(io.Closer); ok {
-		h.closers = append(h.closers, c)
-	}
-	h.closers = append(h.closers, reuse)
-	if err := h.sw.AddTransport(h.tcpT); err != nil {
-		return nil, err
-	}
-	if err := h.sw.AddTransport(h.quicT); err != nil {
+	if err := add("quic", quicT); err != nil {
 		return nil, err
 	}
 	// WebSocket shares the upgrader (gated listener, InterceptSecured); its dialer cannot be bound to a source
@@ -322,16 +421,39 @@ func vfC10NewHost(name, ip4, ip6 string, real func() connmgr.ConnectionGater, re
 	if err != nil {
 		return nil, err
 	}
-	h.wsT = &vfC10RecTransport{Transport: wsT}
-	if err := h.sw.AddTransport(h.wsT); err != nil {
+	if err := add("ws", wsT); err != nil {
 		return nil, err
 	}
-	var las []ma.Multiaddr
-	if h.ip4 != nil {
-		las = append(las, ma.StringCast("/ip4/"+ip4+"/tcp/0"), ma.StringCast("/ip4/"+ip4+"/udp/0/quic-v1"), ma.StringCast("/ip4/"+ip4+"/tcp/0/ws"))
+	suffixes := []string{"/tcp/0", "/udp/0/quic-v1", "/tcp/0/ws"}
+	if extra {
+		// the transports with gating call sites of their own
+		wtT, err := libp2pwebtransport.New(idn.priv, nil, reuse, h.gate, nil)
+		if err != nil {
+			return nil, err
+		}
+		if err := add("wt", wtT); err != nil {
+			return nil, err
+		}
+		rtcT, err := libp2pwebrtc.New(idn.priv, nil, h.gate, nil, func(network string, laddr *net.UDPAddr) (net.PacketConn, error) {
+			return net.ListenUDP(network, laddr)
+		})
+		if err != nil {
+			return nil, err
+		}
+		if err := add("rtc", rtcT); err != nil {
+			return nil, err
+		}
+		suffixes = append(suffixes, "/udp/0/quic-v1/webtransport", "/udp/0/webrtc-direct")
 	}
-	if h.ip6 != nil {
-		las = append(las, ma.StringCast("/ip6/"+ip6+"/tcp/0"), ma.StringCast("/ip6/"+ip6+"/udp/0/quic-v1"), ma.StringCast("/ip6/"+ip6+"/tcp/0/ws"))
+	h.closers = append(h.closers, reuse)
+	var las []ma.Multiaddr
+	for _, sfx := range suffixes {
+		if h.ip4 != nil {
+			las = append(las, ma.StringCast("/ip4/"+ip4+sfx))
+		}
+		if h.ip6 != nil {
+			las = append(las, ma.StringCast("/ip6/"+ip6+sfx))
+		}
 	}
 	if err := h.sw.Listen(las...); err != nil {
 		return nil, fmt.Errorf("%s: listen %v: %w", name, las, err)
@@ -341,14 +463,7 @@ func vfC10NewHost(name, ip4, ip6 string, real func() connmgr.ConnectionGater, re
 		if c, _ := ma.SplitFirst(a); c != nil && c.Protocol().Code == ma.P_IP6 {
 			fam = "6"
 		}
-		t := "tcp"
-		if _, err := a.ValueForProtocol(ma.P_QUIC_V1); err == nil {
-			t = "quic"
-		}
-		if _, err := a.ValueForProtocol(ma.P_WS); err == nil {
-			t = "ws"
-		}
-		h.listen[fam+t] = a
+		h.listen[fam+vfC10TptOf(a)] = a
 	}
 	if len(h.listen) != len(las) {
 		return nil, fmt.Errorf("%s: listening on %v, wanted %v", name, h.sw.ListenAddresses(), las)
@@ -369,12 +484,45 @@ func (h *vfC10Host) close() {
 
 // ---------------------------------------------------------------------------------------------
 
+type vfC10DialRes struct {
+	conn network.Conn
+	err  error
+}
+
+// one attempt in progress
+type vfC10Live struct {
+	dir, peer, ip, tpt, pre, opt, form  string
+	x                                   *vfC10Host
+	addr                                string
+	am, xm                              int   // notification marks (after the pre-existing connection was set up)
+	dials0                              int64 // transport dials before
+	preConns                            int
+	ctx                                 context.Context
+	cancel                              context.CancelFunc
+	localRes                            chan vfC10DialRes // DialPeer / NewStream of the gated host (out)
+	remoteRes                           chan vfC10DialRes // DialPeer of the remote (in, hole punch)
+	localDone, remoteDone               *vfC10DialRes
+	stages                              []string        // the model's stages so far
+	blk                                 map[string]bool // rules whose Block had returned at the start and ever since
+	cont                                map[string]bool // rules in force at every consultation of this connection
+	tdial                               bool
+	tdialBlk, tdialCont                 []string
+	auto                                bool // the real pipeline left the model's path: release everything, judge the outcome
+	aborted, remoteStarted, interleaved bool
+	rawMu                               sync.Mutex
+	remoteRaw                           transport.CapableConn
+	cut                                 bool // the rest of the path needs a cooperating remote we do not have (TCP simultaneous open)
+	refusedAt                           string
+	log                                 []vfC10GateRec
+}
+
 type vfC10Net struct {
 	a      *vfC10Host
 	remote map[string]*vfC10Host // by peer name
 	sys    atomic.Pointer[vfC10Sys]
 	res    *vfh.Result
-	rnd    *vfC10Rand
+	ctl    *vfC10StepCtl
+	live   *vfC10Live
 	stats  map[string]int
 }
 
@@ -401,157 +549,8 @@ func vfC10IPOf(addr string) string {
 	return ip.String()
 }
 
-type vfC10NetOutcome struct {
-	Admitted       bool           `json:"admitted"`        // the gated host had the connection (notification or ConnsToPeer)
-	DialErr        string         `json:"dial_err"`        // what the dialer's DialPeer returned
-	TransportDials int64          `json:"transport_dials"` // outbound: Dial calls on the gated host's transports
-	RemoteAccepts  int            `json:"remote_accepts"`  // outbound: accept consultations at the remote
-	GateLog        []vfC10GateRec `json:"gate_log"`        // consultations of the gated host's gater, in order
-	RefusedAt      string         `json:"refused_at"`      // first refusing consultation
-	GaterRefusal   bool           `json:"gater_refusal"`   // the failure is attributable to the gater
-	Addr           string         `json:"addr"`            // address dialled
-	SeenIP         string         `json:"seen_ip"`         // remote IP as the gated host's gater saw it
-}
-
-// attempt performs one real connection attempt and leaves no connection behind.
-func (n *vfC10Net) attempt(dir, peerName, tpt, form string) (vfC10NetOutcome, error) {
-	var out vfC10NetOutcome
-	a, x := n.a, n.remote[peerName]
-	if x == nil {
-		return out, fmt.Errorf("no remote %s", peerName)
-	}
-	fam := "4"
-	if x.ip4 == nil {
-		fam = "6"
-	}
-	a.gate.take()
-	x.gate.take()
-	am, xm := a.notif.mark(), x.notif.mark()
-	dials0 := a.dials()
-	ctx, cancel := context.WithTimeout(context.Background(), vfC10NetWait)
-	defer cancel()
-	var err error
-	if dir == "out" {
-		target := x.listen[fam+tpt]
-		text := target.String()
-		switch form {
-		case "p2p":
-			text += "/p2p/" + x.id.String()
-		case "dns":
-			rest := strings.SplitN(text, "/", 4)[3]
-			text = "/dns" + fam + "/" + peerName + ".vf.test/" + rest
-		case "mapped":
-			rest := strings.SplitN(text, "/", 4)[3]
-			text = "/ip6/::ffff:" + x.ip4.String() + "/" + rest
-		}
-		out.Addr = text
-		a.sw.Peerstore().ClearAddrs(x.id)
-		a.sw.Peerstore().AddAddr(x.id, ma.StringCast(text), time.Hour)
-		_, err = a.sw.DialPeer(ctx, x.id)
-	} else {
-		target := a.listen[fam+tpt]
-		out.Addr = target.String()
-		x.sw.Peerstore().ClearAddrs(a.id)
-		x.sw.Peerstore().AddAddr(a.id, target, time.Hour)
-		_, err = x.sw.DialPeer(ctx, a.id)
-	}
-	if err != nil {
-		out.DialErr = err.Error()
-		if errors.Is(err, context.DeadlineExceeded) {
-			return out, fmt.Errorf("%s %s %s: DialPeer timed out: %v", dir, peerName, tpt, err)
-		}
-	}
-	refusal := func() string {
-		for _, r := range a.gate.peek() {
-			if !r.Allow {
-				return r.Fn
-			}
-		}
-		return ""
-	}
-	aConnected := func() bool {
-		c, _ := a.notif.count(true, x.id, am)
-		return c > 0 || len(a.sw.ConnsToPeer(x.id)) > 0
-	}
-	if err == nil {
-		// the dialer believes it is connected: the gated host either admits the connection, or its gater
-		// refuses it, or the connection dies
-		werr := vfC10WaitFor("the gated host to decide", func() bool {
-			if aConnected() || refusal() != "" {
-				return true
-			}
-			if dir == "in" {
-				c, _ := x.notif.count(false, a.id, xm)
-				return c > 0
-			}
-			return false
-		})
-		if werr != nil {
-			return out, fmt.Errorf("%s %s %s: %v", dir, peerName, tpt, werr)
-		}
-	}
-	out.Admitted = aConnected()
-	out.RefusedAt = refusal()
-	out.GaterRefusal = out.RefusedAt != "" || (err != nil && errors.Is(err, swarm.ErrGaterDisallowedConnection))
-	out.TransportDials = a.dials() - dials0
-	for _, r := range x.gate.peek() {
-		if r.Fn == "accept" {
-			out.RemoteAccepts++
-		}
-	}
-	// tear down and wait until both swarms are quiet again
-	for _, c := range a.sw.ConnsToPeer(x.id) {
-		c.Close()
-	}
-	x.sw.ClosePeer(a.id)
-	a.sw.ClosePeer(x.id)
-	werr := vfC10WaitFor("both swarms to drop the connection", func() bool {
-		if len(a.sw.ConnsToPeer(x.id)) > 0 || len(x.sw.ConnsToPeer(a.id)) > 0 {
-			return false
-		}
-		ac, _ := a.notif.count(true, x.id, am)
-		ad, _ := a.notif.count(false, x.id, am)
-		xc, _ := x.notif.count(true, a.id, xm)
-		xd, _ := x.notif.count(false, a.id, xm)
-		return ac == ad && xc == xd
-	})
-	if werr != nil {
-		return out, fmt.Errorf("%s %s %s: %v", dir, peerName, tpt, werr)
-	}
-	if c, _ := a.notif.count(true, x.id, am); c > 0 {
-		out.Admitted = true
-	}
-	a.sw.Backoff().Clear(x.id)
-	x.sw.Backoff().Clear(a.id)
-	out.GateLog = a.gate.take()
-	for _, r := range out.GateLog {
-		if (r.Fn == "accept" || r.Fn == "addrdial") && out.SeenIP == "" {
-			out.SeenIP = vfC10IPOf(r.Addr)
-		}
-	}
-	return out, nil
-}
-
-// quiesce drops whatever is left between the gated host and one remote
-func (n *vfC10Net) quiesce(peerName string) {
-	a, x := n.a, n.remote[peerName]
-	if x == nil {
-		return
-	}
-	a.sw.ClosePeer(x.id)
-	x.sw.ClosePeer(a.id)
-	_ = vfC10WaitFor("quiescence", func() bool {
-		return len(a.sw.ConnsToPeer(x.id)) == 0 && len(x.sw.ConnsToPeer(a.id)) == 0
-	})
-	time.Sleep(50 * time.Millisecond)
-	a.sw.Backoff().Clear(x.id)
-	x.sw.Backoff().Clear(a.id)
-	a.gate.take()
-	x.gate.take()
-}
-
 func vfC10NetSetup() (*vfC10Net, error) {
-	n := &vfC10Net{remote: map[string]*vfC10Host{}, stats: map[string]int{}}
+	n := &vfC10Net{remote: map[string]*vfC10Host{}, stats: map[string]int{}, ctl: &vfC10StepCtl{events: make(chan *vfC10Event, 64)}}
 	res := &vfC10Resolver{names: map[string]string{"p2.vf.test": "127.0.0.2", "p3.vf.test": "127.0.0.3", "p6.vf.test": "::1"}}
 	var err error
 	n.a, err = vfC10NewHost("pa", "127.0.0.1", "::1", func() connmgr.ConnectionGater {
@@ -561,12 +560,12 @@ func vfC10NetSetup() (*vfC10Net, error) {
 			}
 		}
 		return nil
-	}, res)
+	}, res, true)
 	if err != nil {
 		return nil, err
 	}
 	for _, r := range []struct{ name, ip4, ip6 string }{{"p2", "127.0.0.2", ""}, {"p3", "127.0.0.3", ""}, {"p6", "", "::1"}} {
-		h, err := vfC10NewHost(r.name, r.ip4, r.ip6, nil, nil)
+		h, err := vfC10NewHost(r.name, r.ip4, r.ip6, nil, nil, r.name == "p6")
 		if err != nil {
 			return nil, err
 		}
@@ -582,81 +581,568 @@ func (n *vfC10Net) close() {
 	}
 }
 
-// judge compares one real attempt with the model's outcome and with the ledger.
-func (n *vfC10Net) judge(s *vfC10Sys, op vfh.Op, form string, expStages []string, out vfC10NetOutcome) error {
-	dir, p, ip, tpt := op.S("dir"), op.S("peer"), op.S("ip"), op.S("tpt")
-	var in, free []string
+// releaseAll lets every stopped consultation go (used when disarmed or in auto mode)
+func (n *vfC10Net) releaseAll() {
+	for {
+		select {
+		case ev := <-n.ctl.events:
+			close(ev.release)
+		default:
+			return
+		}
+	}
+}
+
+func (n *vfC10Net) ledgerIn(l *vfC10Live, s *vfC10Sys, set map[string]bool) []string {
+	var out []string
+	for r := range set {
+		if s.must[r] == "in" {
+			out = append(out, r)
+		} else {
+			delete(set, r)
+		}
+	}
+	sort.Strings(out)
+	return out
+}
+
+// track is called at every harness step of a live attempt: rules that are no longer obliged drop out
+func (n *vfC10Net) track(s *vfC10Sys) {
+	if l := n.live; l != nil {
+		n.ledgerIn(l, s, l.blk)
+		l.interleaved = true
+	}
+}
+
+func vfC10OptCtx(ctx context.Context, opt string) context.Context {
+	switch opt {
+	case "force":
+		return network.WithForceDirectDial(ctx, "verif")
+	case "simc":
+		return network.WithSimultaneousConnect(ctx, true, "verif")
+	case "sims":
+		return network.WithSimultaneousConnect(ctx, false, "verif")
+	case "hpc":
+		return network.WithSimultaneousConnect(network.WithForceDirectDial(ctx, "verif"), true, "verif")
+	case "hps":
+		return network.WithSimultaneousConnect(network.WithForceDirectDial(ctx, "verif"), false, "verif")
+	case "nodial":
+		return network.WithDialPeerTimeout(network.WithNoDial(ctx, "verif"), 30*time.Millisecond)
+	case "limited":
+		return network.WithAllowLimitedConn(ctx, "verif")
+	}
+	return ctx
+}
+
+// start: set up what the swarm already holds, then launch the real attempt (outbound) with the stops armed
+func (n *vfC10Net) start(s *vfC10Sys, op vfh.Op, form string) error {
+	a, x := n.a, n.remote[op.S("peer")]
+	if x == nil {
+		return fmt.Errorf("no remote %s", op.S("peer"))
+	}
+	l := &vfC10Live{dir: op.S("dir"), peer: op.S("peer"), ip: op.S("ip"), tpt: op.S("tpt"), pre: op.S("pre"), opt: op.S("opt"), form: form, x: x,
+		blk: map[string]bool{}, cont: map[string]bool{}, localRes: make(chan vfC10DialRes, 1), remoteRes: make(chan vfC10DialRes, 1)}
+	fam := "4"
+	if x.ip4 == nil {
+		fam = "6"
+	}
+	n.releaseAll()
+	// what the swarm already holds for the peer: admitted earlier, whatever the rules say now
+	if l.pre != "none" {
+		a.gate.bypass.Store(true)
+		via := "tcp"
+		if l.pre == "relayed" {
+			via = "ws"
+			if !a.tpts["ws"].Proxy() {
+				return fmt.Errorf("relayed connection wanted but the WebSocket transport is not in relay mode")
+			}
+		}
+		a.sw.Peerstore().ClearAddrs(x.id)
+		a.sw.Peerstore().AddAddr(x.id, x.listen[fam+via], time.Hour)
+		ctx, cancel := context.WithTimeout(context.Background(), vfC10NetWait)
+		_, err := a.sw.DialPeer(ctx, x.id)
+		cancel()
+		a.gate.bypass.Store(false)
+		if err != nil {
+			return fmt.Errorf("cannot set up the %s connection to %s: %v", l.pre, l.peer, err)
+		}
+		if err := vfC10WaitFor("the remote to see the pre-existing connection", func() bool { return len(x.sw.ConnsToPeer(a.id)) > 0 }); err != nil {
+			return err
+		}
+		a.sw.Backoff().Clear(x.id)
+	}
+	l.preConns = len(a.sw.ConnsToPeer(x.id))
+	a.gate.take()
+	x.gate.take()
+	l.am, l.xm = a.notif.mark(), x.notif.mark()
+	l.dials0 = a.dials()
+	for _, r := range s.matching(l.peer, l.ip) {
+		if s.must[r] == "in" {
+			l.blk[r] = true
+		}
+		l.cont[r] = true
+	}
+	l.ctx, l.cancel = context.WithTimeout(context.Background(), vfC10NetWait)
+	n.live = l
+	a.gate.ctl.Store(n.ctl)
+	if l.dir == "out" {
+		target := x.listen[fam+l.tpt]
+		if target == nil {
+			return fmt.Errorf("%s does not listen on %s", l.peer, l.tpt)
+		}
+		text := target.String()
+		switch form {
+		case "p2p":
+			text += "/p2p/" + x.id.String()
+		case "dns":
+			text = "/dns" + fam + "/" + l.peer + ".vf.test/" + strings.SplitN(text, "/", 4)[3]
+		case "mapped":
+			text = "/ip6/::ffff:" + x.ip4.String() + "/" + strings.SplitN(text, "/", 4)[3]
+		}
+		l.addr = text
+		a.sw.Peerstore().ClearAddrs(x.id)
+		a.sw.Peerstore().AddAddr(x.id, ma.StringCast(text), time.Hour)
+		ctx := vfC10OptCtx(l.ctx, l.opt)
+		go func() {
+			if l.opt == "nodial" || l.opt == "limited" {
+				st, err := a.sw.NewStream(ctx, x.id)
+				if err != nil {
+					l.localRes <- vfC10DialRes{nil, err}
+					return
+				}
+				c := st.Conn()
+				st.Reset()
+				l.localRes <- vfC10DialRes{c, nil}
+				return
+			}
+			c, err := a.sw.DialPeer(ctx, x.id)
+			l.localRes <- vfC10DialRes{c, err}
+		}()
+	} else {
+		l.addr = a.listen[fam+l.tpt].String()
+	}
+	return nil
+}
+
+// arrive: the remote's connection sets out for the gated host's listener
+func (n *vfC10Net) arrive() {
+	l, a := n.live, n.a
+	x := l.x
+	fam := "4"
+	if x.ip4 == nil {
+		fam = "6"
+	}
+	x.sw.Peerstore().ClearAddrs(a.id)
+	x.sw.Peerstore().AddAddr(a.id, a.listen[fam+l.tpt], time.Hour)
+	ctx := l.ctx
+	l.remoteStarted = true
+	if l.dir == "out" {
+		// the other end of the hole punch: the remote's QUIC transport dials the gated host's listener from the
+		// punched address (driven below its swarm, which may hold a connection already and would re-use it)
+		ctx = network.WithSimultaneousConnect(ctx, true, "verif")
+		target := a.listen[fam+l.tpt]
+		go func() {
+			c, err := x.tpts[l.tpt].Transport.Dial(ctx, target, a.id)
+			if err == nil {
+				l.rawMu.Lock()
+				l.remoteRaw = c
+				l.rawMu.Unlock()
+			}
+			l.remoteRes <- vfC10DialRes{nil, err}
+		}()
+		return
+	}
+	go func() {
+		c, err := x.sw.DialPeer(ctx, a.id)
+		l.remoteRes <- vfC10DialRes{c, err}
+	}()
+}
+
+func (n *vfC10Net) newConnOnGated() bool {
+	l := n.live
+	return n.a.notif.count(true, l.x.id, l.am) > 0 || len(n.a.sw.ConnsToPeer(l.x.id)) > l.preConns
+}
+
+// next waits for the next stop of the gated host; nil if the attempt ended on the real side first
+func (n *vfC10Net) next() (*vfC10Event, error) {
+	l := n.live
+	deadline := time.After(vfC10NetWait)
+	for {
+		select {
+		case ev := <-n.ctl.events:
+			return ev, nil
+		case r := <-l.localRes:
+			l.localDone = &r
+			if l.dir == "out" {
+				return nil, nil
+			}
+		case r := <-l.remoteRes:
+			l.remoteDone = &r
+			if r.err != nil {
+				return nil, nil // the remote gave up: nothing more will reach the listener
+			}
+			// the remote believes it is connected; the listener's consultations are still to come (or the real
+			// pipeline has fewer than the model)
+			if n.newConnOnGated() {
+				select {
+				case ev := <-n.ctl.events:
+					return ev, nil
+				default:
+					return nil, nil
+				}
+			}
+		case <-deadline:
+			return nil, fmt.Errorf("time-out waiting for the next consultation of the %sbound %s attempt with %s", l.dir, l.tpt, l.peer)
+		}
+	}
+}
+
+// step executes one att_step of the model on the live attempt
+func (n *vfC10Net) step(s *vfC10Sys, op vfh.Op) error {
+	l := n.live
+	stage := op.S("stage")
+	l.stages = append(l.stages, stage)
+	n.ledgerIn(l, s, l.blk)
+	if l.auto || l.cut {
+		return nil
+	}
+	switch stage {
+	case "reuse", "noconn":
+		return nil // judged at the end: no consultation, no new connection
+	case "arrive":
+		for _, r := range s.matching(l.peer, l.ip) {
+			l.cont[r] = true
+		}
+		n.ledgerIn(l, s, l.cont)
+		n.arrive()
+		return nil
+	}
+	ev, err := n.next()
+	if err != nil {
+		return err
+	}
+	if ev == nil {
+		// the real attempt ended before the consultation the model expects
+		l.auto = true
+		s.mismatch("L2:net:consultation-missing", fmt.Sprintf("%s: the model consults %s next, the real attempt ended (%s)", n.desc(), stage, n.ending()), stage, l.stages)
+		return nil
+	}
+	if ev.stage != stage {
+		s.mismatch("L2:net:consultation-order", fmt.Sprintf("%s: real consultation %s(%s %s), model %s", n.desc(), ev.stage, ev.peer, ev.addr, stage), stage, ev.stage)
+		l.auto = true
+	}
+	if ev.stage == "tdial" {
+		l.tdial = true
+		l.tdialBlk = n.ledgerIn(l, s, l.blk)
+		l.tdialCont = n.ledgerIn(l, s, l.cont)
+	}
+	close(ev.release)
+	var ans bool
+	select {
+	case ans = <-ev.done:
+	case <-time.After(vfC10NetWait):
+		return fmt.Errorf("%s: consultation %s did not return", n.desc(), ev.stage)
+	}
+	if ev.stage != "tdial" {
+		n.ledgerIn(l, s, l.cont)
+		if !ans && l.refusedAt == "" {
+			l.refusedAt = ev.stage
+		}
+		if ans != op.B("allow") && !l.auto {
+			s.mismatch("L2:net:consultation", fmt.Sprintf("%s: %s = %v, model %v", n.desc(), ev.stage, ans, op.B("allow")), op.B("allow"), ans)
+			l.auto = true
+		}
+	} else if l.tpt != "quic" && (l.opt == "sims" || l.opt == "hps") {
+		// simultaneous connect as server over TCP/WS needs a true simultaneous open from the remote
+		l.cut = true
+		l.cancel()
+	}
+	return nil
+}
+
+func (n *vfC10Net) desc() string {
+	l := n.live
+	return fmt.Sprintf("%sbound %s attempt with %s (%s), swarm holds %s, made %s, addr %s", l.dir, l.tpt, l.peer, vfC10IPs[l.ip], l.pre, l.opt, l.addr)
+}
+
+func (n *vfC10Net) ending() string {
+	l := n.live
+	switch {
+	case l.localDone != nil && l.localDone.err != nil:
+		return "local: " + l.localDone.err.Error()
+	case l.localDone != nil:
+		return "local: connection"
+	case l.remoteDone != nil && l.remoteDone.err != nil:
+		return "remote: " + l.remoteDone.err.Error()
+	case l.remoteDone != nil:
+		return "remote: connection"
+	}
+	return "running"
+}
+
+type vfC10NetOutcome struct {
+	NewConn        bool           `json:"new_conn"`        // the gated host got a connection it did not hold before
+	Local          string         `json:"local"`           // what DialPeer/NewStream of the gated host returned
+	Remote         string         `json:"remote"`          // what the remote's DialPeer returned
+	TransportDials int64          `json:"transport_dials"` // Dial calls on the gated host's transports
+	RemoteAccepts  int            `json:"remote_accepts"`  // outbound: accept consultations at the remote
+	GateLog        []vfC10GateRec `json:"gate_log"`        // consultations of the gated host's gater, in order
+	RefusedAt      string         `json:"refused_at"`
+	Stages         []string       `json:"model_stages"`
+	SeenIP         string         `json:"seen_ip"`
+}
+
+// finish: let the real attempt run to its end, judge it, tear everything down
+func (n *vfC10Net) finish(s *vfC10Sys, op vfh.Op) (vfC10NetOutcome, error) {
+	l, a := n.live, n.a
+	x := l.x
+	var out vfC10NetOutcome
+	end := op.S("end")
+	refusal := func() string {
+		for _, r := range a.gate.peek() {
+			if !r.Allow {
+				return r.Fn
+			}
+		}
+		return ""
+	}
+	// wait, releasing whatever else stops, until the outcome is decided on the gated host
+	decided := func() bool {
+		if l.aborted || refusal() != "" {
+			return true
+		}
+		if l.cut {
+			return l.localDone != nil
+		}
+		if l.dir == "out" {
+			if l.localDone == nil {
+				return false
+			}
+			return l.localDone.err != nil || n.newConnOnGated() || len(a.sw.ConnsToPeer(x.id)) > 0
+		}
+		if refusal() != "" || n.newConnOnGated() {
+			return true
+		}
+		if l.remoteDone != nil {
+			return l.remoteDone.err != nil || x.notif.count(false, a.id, l.xm) > 0
+		}
+		return false
+	}
+	extra := 0
+	deadline := time.After(vfC10NetWait)
+	for !decided() {
+		select {
+		case ev := <-n.ctl.events:
+			if !l.auto && !l.cut && end != "-" {
+				extra++
+				s.mismatch("L2:net:consultation-extra", fmt.Sprintf("%s: consultation %s(%s %s) after the model's last stage %v", n.desc(), ev.stage, ev.peer, ev.addr, l.stages), l.stages, ev.stage)
+			}
+			if ev.stage == "tdial" {
+				l.tdial = true
+				l.tdialBlk = n.ledgerIn(l, s, l.blk)
+				l.tdialCont = n.ledgerIn(l, s, l.cont)
+			}
+			close(ev.release)
+		case r := <-l.localRes:
+			l.localDone = &r
+		case r := <-l.remoteRes:
+			l.remoteDone = &r
+		case <-time.After(2 * time.Millisecond):
+		case <-deadline:
+			return out, fmt.Errorf("%s: time-out waiting for the outcome (%s)", n.desc(), n.ending())
+		}
+	}
+	// for an outbound hole punch that was refused at the listener the local dial keeps punching: stop it
+	if l.dir == "out" && l.localDone == nil {
+		l.cancel()
+	}
+	out.NewConn = n.newConnOnGated()
+	out.RefusedAt = refusal()
+	blk, cont := n.ledgerIn(l, s, l.blk), n.ledgerIn(l, s, l.cont)
+	// tear down: disarm, cancel, close, wait until both swarms are quiet
+	a.gate.ctl.Store(nil)
+	l.cancel()
+	n.releaseAll()
+	for l.localDone == nil && l.dir == "out" || l.remoteDone == nil && l.remoteStarted {
+		select {
+		case r := <-l.localRes:
+			l.localDone = &r
+		case r := <-l.remoteRes:
+			l.remoteDone = &r
+		case ev := <-n.ctl.events:
+			close(ev.release)
+		case <-time.After(vfC10NetWait):
+			return out, fmt.Errorf("%s: DialPeer did not return after cancellation", n.desc())
+		}
+	}
+	if n.newConnOnGated() {
+		out.NewConn = true
+	}
+	l.rawMu.Lock()
+	if l.remoteRaw != nil {
+		l.remoteRaw.Close()
+	}
+	l.rawMu.Unlock()
+	a.sw.ClosePeer(x.id)
+	x.sw.ClosePeer(a.id)
+	werr := vfC10WaitFor("both swarms to drop the connection", func() bool {
+		n.releaseAll()
+		if len(a.sw.ConnsToPeer(x.id)) > 0 || len(x.sw.ConnsToPeer(a.id)) > 0 {
+			a.sw.ClosePeer(x.id)
+			x.sw.ClosePeer(a.id)
+			return false
+		}
+		for _, t := range a.tpts {
+			if t.inflight.Load() != 0 {
+				return false // e.g. a cancelled hole punch that has not left the transport yet
+			}
+		}
+		return a.notif.count(true, x.id, 0) == a.notif.count(false, x.id, 0) && x.notif.count(true, a.id, 0) == x.notif.count(false, a.id, 0)
+	})
+	if werr != nil {
+		return out, fmt.Errorf("%s: %v", n.desc(), werr)
+	}
+	if a.notif.count(true, x.id, l.am) > 0 {
+		out.NewConn = true
+	}
+	a.sw.Backoff().Clear(x.id)
+	x.sw.Backoff().Clear(a.id)
+	out.TransportDials = a.dials() - l.dials0
+	for _, r := range x.gate.take() {
+		if r.Fn == "accept" {
+			out.RemoteAccepts++
+		}
+	}
+	out.GateLog = a.gate.take()
+	out.Stages = l.stages
+	for _, r := range out.GateLog {
+		if (r.Fn == "accept" || r.Fn == "addrdial") && out.SeenIP == "" {
+			out.SeenIP = vfC10IPOf(r.Addr)
+		}
+	}
+	if l.localDone != nil {
+		out.Local = "connection"
+		if l.localDone.err != nil {
+			out.Local = l.localDone.err.Error()
+		}
+	}
+	if l.remoteDone != nil {
+		out.Remote = "connection"
+		if l.remoteDone.err != nil {
+			out.Remote = l.remoteDone.err.Error()
+		}
+	}
+	n.live = nil
+
+	// ---- verdicts
+	desc := fmt.Sprintf("%sbound %s attempt with %s (%s), swarm holds %s, made %s, addr %s", l.dir, l.tpt, l.peer, vfC10IPs[l.ip], l.pre, l.opt, l.addr)
+	if out.SeenIP != "" && out.SeenIP != net.ParseIP(vfC10IPs[l.ip]).String() {
+		// WebRTC picks its own source address: acceptable iff every address rule of the instance treats the address
+		// seen like the model's address
+		seen := net.ParseIP(out.SeenIP)
+		for _, r := range s.conf.ipRules() {
+			d, hit := vfC10Rules[r], false
+			if d.kind == "addr" {
+				hit = net.ParseIP(d.val).Equal(seen)
+			} else if _, nw, err := net.ParseCIDR(d.val); err == nil {
+				hit = nw.Contains(seen)
+			}
+			if hit != vfC10In(s.conf.Match[r], l.ip) {
+				return out, fmt.Errorf("%s: the gated host saw the remote as %s (source address not under control)", desc, out.SeenIP)
+			}
+		}
+	}
+	cls := func(kind, r string) string {
+		c := fmt.Sprintf("%s:net:%s:%s:%s", kind, l.dir, vfC10Kind(r), l.tpt)
+		if l.pre != "none" || l.opt != "plain" {
+			c += ":" + l.pre + "+" + l.opt
+		}
+		return c
+	}
+	// the statement's clause: blocked (call returned) before the attempt and ever since
+	if len(blk) > 0 && out.NewConn {
+		s.mismatch(cls("blocked-new-connection", blk[0]), fmt.Sprintf("Block(%v) had returned before the %s began and was not undone: a NEW connection appeared on the gated swarm (local result: %s)", blk, desc, out.Local), "no new connection", out)
+	}
+	if l.tdial && len(l.tdialBlk) > 0 {
+		s.mismatch(cls("blocked-transport-dial", l.tdialBlk[0]), fmt.Sprintf("Block(%v) had returned before the %s began: the transport's Dial was called (%d call(s), %d accept(s) at the remote)", l.tdialBlk, desc, out.TransportDials, out.RemoteAccepts), "no dial", out)
+	}
+	// in force at every consultation of the connection (from its arrival on)
+	if len(cont) > 0 && out.NewConn && len(blk) == 0 {
+		s.mismatch(cls("blocked-admitted", cont[0]), fmt.Sprintf("rule %v in force at every consultation of the %s (from its arrival at the listener on): the gated swarm had the connection", cont, desc), "refused", out)
+	}
+	if l.tdial && len(l.tdialCont) > 0 && len(l.tdialBlk) == 0 {
+		s.mismatch(cls("blocked-transport-dial", l.tdialCont[0]), fmt.Sprintf("rule %v in force at every consultation before the transport dial of the %s: Dial was called", l.tdialCont, desc), "no dial", out)
+	}
+	// over-blocking: nothing that matches is or may be blocked, the attempt creates a connection in the model, the gater refused
+	var inForce, free []string
 	someOut := false
-	for _, r := range s.matching(p, ip) {
+	for _, r := range s.matching(l.peer, l.ip) {
 		switch s.must[r] {
 		case "in":
-			in = append(in, r)
+			inForce = append(inForce, r)
 		case "free":
 			free = append(free, r)
 		case "out":
 			someOut = true
 		}
 	}
-	desc := fmt.Sprintf("%sbound %s attempt with %s (%s) addr %s", dir, tpt, p, vfC10IPs[ip], out.Addr)
-	// the remote must have appeared with the address the model speaks about
-	if out.SeenIP != "" && out.SeenIP != net.ParseIP(vfC10IPs[ip]).String() {
-		return fmt.Errorf("%s: the gated host saw the remote as %s (source address not under control)", desc, out.SeenIP)
-	}
-	if len(in) > 0 {
-		k := vfC10Kind(in[0])
-		if out.Admitted {
-			s.mismatch(fmt.Sprintf("blocked-admitted:net:%s:%s:%s", dir, k, tpt),
-				fmt.Sprintf("rule %v blocked, %s: the gated swarm had a connection (Connected notification / ConnsToPeer)", in, desc), "refused", out)
-		}
-		if dir == "out" && (out.TransportDials > 0 || out.RemoteAccepts > 0) {
-			s.mismatch(fmt.Sprintf("blocked-transport-dial:net:%s:%s", k, tpt),
-				fmt.Sprintf("rule %v blocked, %s: %d transport Dial call(s), %d accept(s) at the remote", in, desc, out.TransportDials, out.RemoteAccepts), "no dial", out)
-		}
-	}
-	if len(in) == 0 && len(free) == 0 && !out.Admitted {
-		if out.GaterRefusal {
-			cls := fmt.Sprintf("unblocked-refused:net:%s:%s", dir, tpt)
+	gaterRefusal := out.RefusedAt != "" || (l.localDone != nil && l.localDone.err != nil && errors.Is(l.localDone.err, swarm.ErrGaterDisallowedConnection))
+	if end == "admitted" && !out.NewConn && !l.cut && !l.interleaved && len(inForce) == 0 && len(free) == 0 {
+		if gaterRefusal {
+			c := fmt.Sprintf("unblocked-refused:net:%s:%s", l.dir, l.tpt)
 			if !someOut {
-				cls = "L2:net:never-blocked-refused"
+				c = "L2:net:never-blocked-refused"
 			}
-			s.mismatch(cls,
-				fmt.Sprintf("no matching rule blocked, %s: refused by the gater at %q (%s)", desc, out.RefusedAt, out.DialErr), "admitted", out)
-		} else if form != "mapped" {
-			return fmt.Errorf("%s failed for a reason that is not the gater: %s", desc, out.DialErr)
+			s.mismatch(c, fmt.Sprintf("no matching rule blocked, %s: refused by the gater at %q (%s)", desc, out.RefusedAt, out.Local), "admitted", out)
+		} else if l.form != "mapped" {
+			return out, fmt.Errorf("%s failed for a reason that is not the gater: local %q remote %q", desc, out.Local, out.Remote)
 		}
 	}
-	// model conformance (L2): outcome, refusing stage, consultation order
-	wantAdmitted := op.S("end") == "admitted"
-	if wantAdmitted != out.Admitted && form != "mapped" {
-		s.mismatch("L2:net:outcome", fmt.Sprintf("%s: admitted=%v, model %s at %s", desc, out.Admitted, op.S("end"), op.S("stage")), op.S("end"), out)
-	}
-	if !wantAdmitted && !out.Admitted {
-		want := op.S("stage")
-		if want == "secured" {
-			want = "secured-" + dir
-		}
-		if out.RefusedAt != want {
-			s.mismatch("L2:net:refusing-stage", fmt.Sprintf("%s: refused at %q, model at %q", desc, out.RefusedAt, want), want, out)
-		}
-	}
-	var got []string
-	for _, r := range out.GateLog {
-		fn := r.Fn
-		if strings.HasPrefix(fn, "secured") {
-			fn = "secured"
-		}
-		got = append(got, fn)
-	}
-	var want []string
-	for _, st := range expStages {
-		if st != "tdial" {
-			want = append(want, st)
+	// model conformance (L2)
+	if !l.cut && l.form != "mapped" {
+		switch end {
+		case "admitted":
+			if !out.NewConn {
+				s.mismatch("L2:net:outcome", fmt.Sprintf("%s: no new connection, model admits (local %q remote %q)", desc, out.Local, out.Remote), end, out)
+			}
+		case "refused":
+			want := op.S("stage")
+			if out.NewConn {
+				s.mismatch("L2:net:outcome", fmt.Sprintf("%s: new connection, model refuses at %s", desc, want), end, out)
+			} else if out.RefusedAt != want && !l.auto {
+				s.mismatch("L2:net:refusing-stage", fmt.Sprintf("%s: refused at %q, model at %q", desc, out.RefusedAt, want), want, out)
+			}
+		case "reused":
+			if out.NewConn || l.localDone == nil || l.localDone.err != nil || len(out.GateLog) > 0 || out.TransportDials > 0 {
+				s.mismatch("L2:net:outcome", fmt.Sprintf("%s: model re-uses the connection held; real: new=%v local=%q consultations=%d dials=%d", desc, out.NewConn, out.Local, len(out.GateLog), out.TransportDials), end, out)
+			}
+		case "noconn":
+			if out.NewConn || l.localDone == nil || l.localDone.err == nil || len(out.GateLog) > 0 || out.TransportDials > 0 {
+				s.mismatch("L2:net:outcome", fmt.Sprintf("%s: model makes no connection and no dial; real: new=%v local=%q consultations=%d dials=%d", desc, out.NewConn, out.Local, len(out.GateLog), out.TransportDials), end, out)
+			}
 		}
 	}
-	if strings.Join(got, ",") != strings.Join(want, ",") {
-		s.mismatch("L2:net:consultation-order", fmt.Sprintf("%s: consultations %v, model %v", desc, got, want), want, got)
+	return out, nil
+}
+
+func vfC10Has(l []string, x string) bool {
+	for _, e := range l {
+		if e == x {
+			return true
+		}
 	}
-	return nil
+	return false
+}
+
+// abort: the process "crashed" in the middle of an attempt
+func (n *vfC10Net) abort(s *vfC10Sys) error {
+	if n.live == nil {
+		return nil
+	}
+	n.live.auto, n.live.aborted = true, true
+	n.live.cancel()
+	_, err := n.finish(s, vfh.Op{"end": "-", "stage": "-"})
+	return err
 }
 
 func TestVerifC10Net(t *testing.T) {
@@ -666,7 +1152,7 @@ func TestVerifC10Net(t *testing.T) {
 	}
 	sort.Strings(files)
 	res := vfh.NewResult()
-	res.Rule = "each walk: rule calls / crashes / reopening on the real gater behind the gated swarm, each model attempt as a real DialPeer (direction, transport); L1 on the gated host's notifications, ConnsToPeer, transport Dial calls and the remote's accepts"
+	res.Rule = "each walk action by action: rule calls / crashes / reopening on the real gater behind the gated swarm; each model attempt as a real DialPeer/NewStream (direction, transport, connection already held, dial options) whose Intercept* calls and transport Dial calls are stopped and released one at a time as the model's stages say; distinct = (instance, rule set listed, attempt parameters, stages at which a rule call was interleaved)"
 	n, err := vfC10NetSetup()
 	if err != nil {
 		t.Fatalf("cannot set up the loopback swarms: %v", err)
@@ -694,9 +1180,11 @@ func TestVerifC10Net(t *testing.T) {
 		if err != nil {
 			t.Fatal(err)
 		}
-		if !conf.Exclusive {
-			t.Fatal("the network composition needs an Exclusive instance")
+		relay := false
+		for _, p := range conf.Pres {
+			relay = relay || p == "relayed"
 		}
+		n.a.tpts["ws"].proxy.Store(relay) // the relay-like transport of the instances that need one
 		for _, w := range walks {
 			sys, err := vfC10NewSys(conf, res, forms, uint64(vfh.Seed())*999983+uint64(w.Walk)*104729)
 			if err != nil {
@@ -711,85 +1199,112 @@ func TestVerifC10Net(t *testing.T) {
 			if err := sys.check(st0); err != nil {
 				t.Fatal(err)
 			}
-			var stages []string
+			skipping := false
+			inter := ""
+			var startOp vfh.Op
+			form := "plain"
 			for i, stp := range w.Steps {
 				sys.step = i
 				sys.prefix = append(sys.prefix, stp.Op)
 				op := stp.Op
+				fail := func(err error) {
+					t.Fatalf("%s walk %d step %d %v: %v", name, w.Walk, i, op, err)
+				}
 				switch op.Name() {
 				case "att_start":
-					stages = nil
-				case "att_step":
-					stages = append(stages, op.S("stage"))
-					if op.S("end") == "-" {
+					startOp, inter, skipping = op, "", false
+					x := n.remote[op.S("peer")]
+					if (op.S("tpt") == "ws" || op.S("tpt") == "rtc") && op.S("dir") == "in" && x != nil && x.ip4 != nil {
+						stats["attempts_skipped_source_not_bindable"]++
+						skipping = true
 						break
 					}
-					if op.S("tpt") == "ws" && op.S("dir") == "in" && n.remote[op.S("peer")].ip4 != nil {
-						stats["attempts_skipped_ws_source_not_bindable"]++
-						break
-					}
-					form := "plain"
-					if op.S("dir") == "out" {
+					form = "plain"
+					if op.S("dir") == "out" && op.S("pre") == "none" && op.S("opt") == "plain" && (op.S("tpt") == "tcp" || op.S("tpt") == "quic" || op.S("tpt") == "ws") {
 						switch k := sys.rnd.intn(4); {
 						case k == 1:
 							form = "p2p"
 						case k == 2:
 							form = "dns"
-						case k == 3 && op.S("end") == "refused" && op.S("stage") == "addrdial" && op.S("ip") != "i6":
+						case k == 3 && conf.Exclusive && op.S("ip") != "i6" && vfC10NetAddrBlocked(sys, op.S("ip")):
 							form = "mapped" // dialable only as far as the gater; used where the gater has to stop it
 						}
 					}
-					out, err := n.attempt(op.S("dir"), op.S("peer"), op.S("tpt"), form)
-					for try := 0; err != nil && try < 2; try++ {
-						// a network hiccup (time-out) is machinery: quiesce and try again before giving up
-						t.Logf("%s walk %d step %d: %v (retrying)", name, w.Walk, i, err)
-						stats["attempt_retries"]++
-						n.quiesce(op.S("peer"))
-						out, err = n.attempt(op.S("dir"), op.S("peer"), op.S("tpt"), form)
+					if err := n.start(sys, op, form); err != nil {
+						fail(err)
 					}
+				case "att_step":
+					if skipping {
+						break
+					}
+					if n.live == nil {
+						fail(fmt.Errorf("att_step without a live attempt"))
+					}
+					if err := n.step(sys, op); err != nil {
+						fail(err)
+					}
+					if op.S("end") == "-" {
+						break
+					}
+					out, err := n.finish(sys, op)
 					if err != nil {
-						t.Fatalf("%s walk %d step %d: %v", name, w.Walk, i, err)
-					}
-					if err := n.judge(sys, op, form, stages, out); err != nil {
-						// one more try before calling it a machinery failure
-						out, err2 := n.attempt(op.S("dir"), op.S("peer"), op.S("tpt"), form)
-						if err2 != nil {
-							t.Fatalf("%s walk %d step %d: %v", name, w.Walk, i, err2)
-						}
-						if err3 := n.judge(sys, op, form, stages, out); err3 != nil {
-							t.Fatalf("%s walk %d step %d: %v (first try: %v)", name, w.Walk, i, err3, err)
-						}
+						fail(err)
 					}
 					stats["attempts"]++
-					stats["attempts_"+op.S("dir")]++
-					stats["attempts_"+op.S("tpt")]++
+					stats["attempts_"+startOp.S("dir")]++
+					stats["attempts_"+startOp.S("tpt")]++
 					stats["attempts_form_"+form]++
-					if out.Admitted {
+					stats["attempts_pre_"+startOp.S("pre")]++
+					stats["attempts_opt_"+startOp.S("opt")]++
+					stats["attempts_end_"+op.S("end")]++
+					if inter != "" {
+						stats["attempts_with_interleaved_rule_calls"]++
+					}
+					if out.NewConn {
 						stats["attempts_admitted"]++
-					} else {
+					} else if out.RefusedAt != "" {
 						stats["attempts_refused"]++
 						stats["attempts_refused_at_"+out.RefusedAt]++
+						if startOp.S("dir") == "out" && (out.RefusedAt == "accept" || out.RefusedAt == "secured_in") {
+							stats["attempts_holepunch_refused_at_listener"]++
+						}
 					}
-					res.Case(fmt.Sprintf("%s|%v|%s|%s|%s|%s", name, sys.lastListed, op.S("dir"), op.S("peer"), op.S("tpt"), form))
-					if stats["attempts"] <= 3 {
-						res.Sample(map[string]any{"attempt": op, "form": form, "outcome": out})
+					if vfC10Has(out.Stages, "arrive") && startOp.S("dir") == "out" && out.NewConn {
+						stats["attempts_holepunch_admitted"]++
+					}
+					res.Case(fmt.Sprintf("%s|%v|%s|%s|%s|%s|%s|%s|%s", name, sys.lastListed, startOp.S("dir"), startOp.S("peer"), startOp.S("tpt"), startOp.S("pre"), startOp.S("opt"), form, inter))
+					if stats["attempts"] <= 2 || (inter != "" && stats["attempts_with_interleaved_rule_calls"] <= 2) {
+						res.Sample(map[string]any{"attempt": startOp, "form": form, "interleaved": inter, "outcome": out})
 					}
 				default:
+					if op.Name() == "crash" && n.live != nil {
+						if err := n.abort(sys); err != nil {
+							fail(err)
+						}
+					}
 					if err := sys.apply(op); err != nil {
-						t.Fatalf("%s walk %d step %d %v: %v", name, w.Walk, i, op, err)
+						fail(err)
+					}
+					n.track(sys)
+					if n.live != nil {
+						inter += fmt.Sprintf("%s:%s:%s@%d;", op.Name(), op.S("kind"), op.S("r"), len(n.live.stages))
 					}
 					st, err := vfC10ParseState(stp.State)
 					if err != nil {
 						t.Fatal(err)
 					}
-					st.Att.K = 0
 					if err := sys.check(st); err != nil {
-						t.Fatalf("%s walk %d step %d %v: %v", name, w.Walk, i, op, err)
+						fail(err)
 					}
 					stats["rule_steps"]++
 					if op.Name() == "reopen" {
 						stats["reopens"]++
 					}
+				}
+			}
+			if n.live != nil {
+				if err := n.abort(sys); err != nil {
+					t.Fatalf("%s walk %d: %v", name, w.Walk, err)
 				}
 			}
 			sys.close()
@@ -802,4 +1317,14 @@ func TestVerifC10Net(t *testing.T) {
 	if err := res.Write(); err != nil {
 		t.Fatal(err)
 	}
+}
+
+// vfC10NetAddrBlocked: does the ledger say an address/subnet rule matching ip is blocked right now?
+func vfC10NetAddrBlocked(s *vfC10Sys, ip string) bool {
+	for _, r := range s.matching("", ip) {
+		if vfC10Kind(r) != "peer" && s.must[r] == "in" {
+			return true
+		}
+	}
+	return false
 }
